@@ -691,7 +691,7 @@ def small_cut_sets(n, kmax):
 class Prop:
     id = "C18"
     lean_module = "MuduoVerif.Props.C18"
-    gen_engines = ["Codec", "Http"]
+    gen_engines = ["Codec", "Http", "CodecSkel", "HttpSkel"]   # *Skel: statement skeletons (statement_order_tied)
     drivers = ["codec", "http"]
     technique = ("Lean 4 theorems over incremental-decoder models (generic segmentation theorem by induction over chunks, "
                  "round trip, classification, bounded consumption; HTTP request line against a declarative spec) + T1 "
@@ -724,6 +724,8 @@ class Prop:
     trusted_base = [
         "Lean 4.33.0 kernel; axioms allowed: propext, Classical.choice, Quot.sound",
         "vlib/extract.py with vlib/gen/codec.py, vlib/gen/http.py (clang-14 JSON AST -> Generated/Codec.lean, Generated/Http.lean)",
+        "vlib/gen/codecskel.py, vlib/gen/httpskel.py (statement skeletons -> Generated/CodecSkel.lean, Generated/HttpSkel.lean) and the "
+        "reading of the models in Model/CodecSkelDecl.lean, Model/HttpSkelDecl.lean (theorem statement_order_tied)",
         "hand-written Model/Stream.lean, Model/Codec.lean, Model/Http.lean for the loops, slicing, Adler-32, the pointer walk of "
         "processRequestLine, std::map; tied by the differential run (harness/codec_drv.cc, harness/http_drv.cc vs the Lean drivers)",
         "protobuf's ParseFromArray / serialisation (verdicts recorded from the real calls), zlib's adler32 (cross-checked against "
